@@ -82,3 +82,43 @@ func propCollisions(c *Case) {
 		d.compareAll()
 	})
 }
+
+const c09bRule = "buffer reuse: Failover with background updates forced (SyncUpdate off), 2-3 keys initially stale, 1-5 Gets whose callers overwrite their key buffer with ANOTHER live key's bytes (or 0xAA) as a schedulable step after Get returned, i.e. before or after the parked background build resumes; " +
+	"oracle = C04's quiescence oracle: every value sits under its own key, the backend holds only the scenario's keys each with its last written value, no key lock remains, every key can be rebuilt; non-trivial = a buffer was overwritten with another key while a background build of the case was still parked"
+
+// TestC09BufferReuse: no component keeps a reference to the caller's key slice.
+func TestC09BufferReuse(t *testing.T) {
+	runCheck(t, "C09", "C09BufferReuse", c09bRule, func(c *Case) {
+		propFailoverSched(c, scenOpts{
+			maxKeys: 3, minGets: 1, maxGets: 5, postActions: true, failPct: 20,
+			initStates: []int{ksStaleRecent, ksStaleRecent, ksFresh},
+			forceCfg: func(cfg *foCfg) {
+				cfg.syncUpdate = false
+				cfg.maxStaleness = 0
+			},
+		}, func(w *world, sc *scenario, complete bool) {
+			w.checkQuiescence(sc, complete)
+
+			// non-trivial: some "returned" step of a Get with poison mode 1 was resumed before its bg build finished
+			for _, g := range sc.gets {
+				if g.poison != 1 || string(g.otherKey) == string(g.key) {
+					continue
+				}
+
+				for _, b := range w.log.builds {
+					if b.getIdx == g.idx && len(b.task) > 3 && b.task[len(b.task)-4:len(b.task)-1] == ".bg" {
+						for _, gr := range w.log.gets {
+							if gr.idx == g.idx && gr.done {
+								rs := w.log.resumes[gr.task]
+								if len(rs) > 0 && rs[len(rs)-1] < b.exitStep {
+									c.Class("buffer-overwritten-while-build-parked")
+									c.NonTrivial()
+								}
+							}
+						}
+					}
+				}
+			}
+		})
+	})
+}
